@@ -214,14 +214,19 @@ Fixpoint cancel_each (cs : list Z) (time : Z) (g : tgraph) (acc : list Z) : tgra
       end
   end.
 
-(* the loop after random.choices: the chosen child gets probability 1.0, every other child is cancelled *)
-Fixpoint choose_loop (cs : list Z) (k time : Z) (g : tgraph) (acc : list Z) : tgraph * result (list Z) :=
+(* the loop after random.choices: the chosen child gets probability 1.0; an untaken child that is a join
+   which another parent (not the conditional t, not CANCELLED) still leads to is left alone
+   (Src_TaskGraph.notify_keeps_join); every other child is cancelled *)
+Definition keeps_join (g : tgraph) (t c : Z) : bool :=
+  notify_keeps_join (tg_state g) (fun p => p =? t) (tg_terminal g c) (tg_parents g c).
+Fixpoint choose_loop (t : Z) (cs : list Z) (k time : Z) (g : tgraph) (acc : list Z) : tgraph * result (list Z) :=
   match cs with
   | [] => (g, Ok acc)
   | c :: cs' =>
-      if c =? k then choose_loop cs' k time (tg_set g c (with_prob (tg_task g c) (g_den g))) acc
+      if c =? k then choose_loop t cs' k time (tg_set g c (with_prob (tg_task g c) (g_den g))) acc
+      else if keeps_join g t c then choose_loop t cs' k time g acc
       else match tg_cancel g c time with
-           | (g', Ok l) => choose_loop cs' k time g' (acc ++ l)
+           | (g', Ok l) => choose_loop t cs' k time g' (acc ++ l)
            | (g', Err e) => (g', Err e)
            end
   end.
@@ -267,7 +272,7 @@ Definition notify_completion (g : tgraph) (t finish draw : Z) : tgraph * result 
          | None => (g, Err 5)
          | Some k =>
              if notify_moved_beyond (tg_state g k) then (g, Err 3)
-             else match choose_loop ks k finish g [] with
+             else match choose_loop t ks k finish g [] with
                   | (g', Ok cs) => (g', Ok ([k], cs))
                   | (g', Err e) => (g', Err e)
                   end
@@ -591,9 +596,10 @@ Definition c07_check (x : tgraph * Z * Z * list Z * list Z * list (Z * Z)) : boo
       (match rel with [r] => r =? k | _ => false end) && (0 <? tg_prob g k) &&
       (* every task of an untaken branch, up to but excluding the join, is cancelled *)
       forallb (fun u => forallb (fun d => state_after after d =? cancelled_value) (branch_of g u)) untaken &&
-      (* a join that is not itself an untaken child and keeps a live parent is not cancelled by this *)
-      forallb (fun j => negb (tg_terminal g j) || zmem j untaken || is_cancelled g j ||
-                        negb (existsb (fun p => negb (state_after after p =? cancelled_value)) (tg_parents g j)) ||
+      (* a join that keeps a live parent other than the conditional itself is not cancelled by this *)
+      forallb (fun j => negb (tg_terminal g j) || is_cancelled g j ||
+                        negb (existsb (fun p => negb (p =? t) && negb (state_after after p =? cancelled_value))
+                                      (tg_parents g j)) ||
                         negb (state_after after j =? cancelled_value)) (tg_nodes g) &&
       (* the returned list is exactly the set of tasks that became CANCELLED, nothing else changed *)
       forallb (fun n => if zmem n canc then (state_after after n =? cancelled_value) && negb (is_cancelled g n)
